@@ -417,17 +417,34 @@ func (c *fsCache) set(key string, entry []byte) error {
 	if err := c.root.MkdirAll(filepath.Dir(name), 0o755); err != nil {
 		return err
 	}
-	f, err := c.root.Create(name)
+	// Write to a temporary file in the destination directory and rename it over the
+	// destination: a concurrent Get, or a Get after a write that failed or a process
+	// that died half-way, sees the previous value or the new one in full - never a
+	// truncated or partially written entry.
+	tmp := filepath.Join(filepath.Dir(name), tempFilePrefix+rand.Text())
+	f, err := c.root.OpenFile(tmp, os.O_WRONLY|os.O_CREATE|os.O_EXCL, 0o666)
 	if err != nil {
 		return err
 	}
-	defer f.Close()
 	_, err = f.Write(entry)
-	if err != nil {
-		return err
+	if err == nil {
+		err = f.Sync()
 	}
-	return f.Sync()
+	if cerr := f.Close(); err == nil {
+		err = cerr
+	}
+	if err == nil {
+		err = c.root.Rename(tmp, name)
+	}
+	if err != nil {
+		_ = c.root.Remove(tmp)
+	}
+	return err
 }
+
+// tempFilePrefix starts the names of the temporary files written by set; "." is not
+// in the alphabet of entry file names. A crash may leave such a file behind.
+const tempFilePrefix = ".tmp-"
 
 func (c *fsCache) Delete(key string) error {
 	ctx, cancel := context.WithTimeout(context.Background(), c.timeout)
@@ -496,7 +513,7 @@ func (c *fsCache) keys(prefix string) ([]string, error) {
 		if err != nil {
 			return err
 		}
-		if d.IsDir() {
+		if d.IsDir() || strings.HasPrefix(d.Name(), tempFilePrefix) {
 			return nil
 		}
 		key, err := c.fnk.KeyFromFileName(
